@@ -71,13 +71,27 @@ pub fn check_rect(c: &RectCase) -> CheckResult {
     o.class_if(w < 0.0 || h < 0.0, "negative-size");
     o.class_if(w == 0.0 || h == 0.0, "zero-size");
     o.class_if(matches!(c.lead.last(), Some(POp::Z)), "rect-directly-after-close");
+    o.class_if(matches!(c.lead.last(), Some(POp::L(a, b) | POp::Q(_, _, a, b) | POp::C(_, _, _, _, a, b)) if *a == c.x && *b == c.y), "rect-begins-at-the-current-point-of-an-open-subpath");
     o.class_if(matches!(c.lead.last(), Some(POp::L(..) | POp::Q(..) | POp::C(..))), "rect-in-the-middle-of-a-subpath");
     Ok(o)
 }
 
 fn rect_strategy() -> BoxedStrategy<RectCase> {
     (finite_f32(), finite_f32(), finite_f32(), finite_f32(), prop::collection::vec((finite_f32(), finite_f32(), finite_f32(), finite_f32(), 0u8..6).prop_map(|(x, y, a, b, m)| match m { 0 => POp::M(x, y), 1 | 2 => POp::L(x, y), 3 => POp::Q(a, b, x, y), 4 => POp::C(a, b, b, a, x, y), _ => POp::Z }), 0..4))
-        .prop_map(|(x, y, w, h, lead)| RectCase { x, y, w, h, lead })
+        .prop_map(|(x, y, w, h, mut lead)| {
+            // half of the non-empty leads end exactly where the rectangle begins (a coincidence random floats
+            // never produce): the rectangle is still a subpath of its own, opened by its own MoveTo
+            if (x.to_bits() ^ w.to_bits()) & 1 == 0 {
+                match lead.last_mut() {
+                    Some(POp::M(a, b)) | Some(POp::L(a, b)) | Some(POp::Q(_, _, a, b)) | Some(POp::C(_, _, _, _, a, b)) => {
+                        *a = x;
+                        *b = y;
+                    }
+                    _ => {}
+                }
+            }
+            RectCase { x, y, w, h, lead }
+        })
         .boxed()
 }
 
@@ -334,7 +348,7 @@ pub fn property(_ctx: &Ctx) -> Property {
             part("arc", 120_000, 2_500_000, arc_strategy, check_arc),
             part_outside_c07("transform", 50_000, 800_000, xf_strategy, check_xf),
         ],
-        min_class_fraction: vec![("arc", "negative-sweep", 0.3), ("arc", "beyond-full-turn", 0.1), ("arc", "multi-quad", 0.5), ("arc", "arc-directly-after-close", 0.05), ("rect", "negative-size", 0.2), ("transform", "xf:unit-diagonal-shear", 0.01)],
+        min_class_fraction: vec![("arc", "negative-sweep", 0.3), ("arc", "beyond-full-turn", 0.1), ("arc", "multi-quad", 0.5), ("arc", "arc-directly-after-close", 0.05), ("rect", "negative-size", 0.2), ("rect", "rect-begins-at-the-current-point-of-an-open-subpath", 0.1), ("transform", "xf:unit-diagonal-shear", 0.01)],
         panic_is_violation: false,
     }
 }
